@@ -1,3 +1,5 @@
+//go:build drv_session || drv_all
+
 package main
 
 import (
